@@ -1,7 +1,7 @@
 """C09 — spectral-radius-constrained fits respect the requested bound."""
 import json
 import numpy as np
-from .. import common, driver, known, lmi, altern
+from .. import common, driver, known, lmi, altern, lmi_blocks
 from . import _dp
 import pykoop
 import pykoop.lmi_regressors as L
@@ -125,6 +125,16 @@ def run(res, tier):
                              'tagged values, integer objectives, a polite-stop request at a random check, max_iter 1..5, atol in '
                              '{0,1,3}; the returned tags of U (and gamma_), P_, objective_log_, n_iter_, the class of stop_reason_ and '
                              'the arguments each sub-problem was built from are compared inside Coq with Altern.fit on the same script.')
+    # M5-exact: the LMI block the builders hand to PICOS vs coq/LmiBlocks.v, at integer test points, compared inside Coq
+    b2, f2, e2, n_blk, s_blk, d_blk = lmi_blocks.run_blocks(rng, 24 if tier == 'quick' else 300, 'c09_blocks', ['sr_b', 'sr_a', 'sr_dmdc_b'])
+    res.coverage['programs'] += n_blk; res.coverage['disagreements_checked'] += n_blk; res.coverage['evaluations'] += n_blk
+    res.coverage['distinct_nontrivial'] += n_blk
+    res.coverage['lmi_builder_vs_model'] = dict(blocks=n_blk, builders=d_blk, model_vs_impl_disagreements=len(f2), coq_case_errors=len(e2))
+    res.coverage['rule'] += (' LMI builders (M5-exact): _create_problem_a / _create_problem_b (and _create_ss with no / pre / post weight) are '
+                             'called with integer and dyadic test values, the slack of the LMI constraint (the block itself) is read from '
+                             'PICOS and compared entry by entry inside Coq with LmiBlocks.v.')
+    merged = lmi_blocks.Merged([(batch, failed, errors), (b2, f2, e2)])
+    batch, failed, errors = merged, merged.failed, merged.errors
     _dp.conclude(res, PID, proved, batch, failed, errors, bad, 'Props/C09.v (Lyapunov certificate) + per-fit certificate checks + alternation-loop correspondence (Altern.v)')
 
 
